@@ -2,6 +2,12 @@ NOTES = ('Bounded-exhaustive model checking of the real implementation; see DESI
          'Known genuine defects are listed in known_findings.json.')
 NOT_APPLICABLE = {}
 CHECKS = {
+ 'C16': dict(engine='E3', design_ref='4/C16',
+    technique='exhaustive enumeration (full product of every anchored importable shell model x semi-vertex angle x geometry x laminate x series orders x edge-restraint letters; kernel-identity edges) on the real ConeCyl linear matrices against the energy Hessian of the package own linear strain field and against direct kernel calls',
+    text='k0 symmetric, positive semi-definite, equal to the symmetrised kernel (+ edge matrix) for harness-computed arguments, k0uu = k0 without the prescribed amplitudes; for classical models k0 on the non-prescribed amplitudes equals '
+         'the Hessian of Int 1/2 eps^T F eps r dx dtheta of the odd part of commons.fstrain plus the edge restraint energy (cylinders to 1e-11, cones: Richardson limit of s=20,40,80 and 1/s^2 rate); '
+         'cylinder kernels == cone kernels at 0 deg; isotropic short-cuts == general model with isotropic laminate; kG0 additive/linear in (Fc,P,T), combined-load split adds up.',
+    note='five kernel-level defects are known findings accepted only while the Python layer equals a direct kernel call; clpt_donnell_bcn is registered but not importable in this tree and is skipped'),
  'C14': dict(engine='E3', design_ref='4/C14',
     technique='exhaustive enumeration of description-transformation edges (cone(0)<->cylinder, cylinder(r=10^k)->plate, w-only<->w-block, numeric<->analytic kernels, x<->y exchange, similarity scaling) x laminate x flag base x orders x load triples, differential oracle between two real executions',
     text='For every edge and configuration letter the two descriptions are evaluated through the public API and compared: matrices identical to rounding (cone at 0 deg vs cylinder, w-only vs w-block, numeric vs analytic at the undeformed state), '
